@@ -15,6 +15,14 @@ def _raise(I, node, exc, note=None):
     raise AbsRaise(ExcValue(exc, site=node), site=node, explicit=False, note=note)
 
 
+def _mname(I, node):
+    """Name of the method being modelled (also for calls through an alias such as peek = fp.peek)."""
+    f = getattr(node, 'func', None)
+    if isinstance(f, ast.Attribute):
+        return f.attr
+    return getattr(I, 'cur_method', '?')
+
+
 def codec_ok(v):
     """Is the codec-name operand known to name an existing codec?"""
     if is_concrete(v):
@@ -45,6 +53,7 @@ def call_builtin(I, fn, args, kwargs, node):
             return Unk('call:%s' % name, taint=tj(*args, *kwargs.values()), src=('call', name, list(args)))
         return h(I, args, kwargs, node)
     kind, meth = name.split('.', 1)
+    I.cur_method = meth
     h = METHODS.get(meth)
     if h is None:
         raise AnalysisError('no transfer-table row for method %s at %s' % (name, norm(node)[:60]))
@@ -475,6 +484,26 @@ def b_codecs_lookup(I, a, k, node):
     return o
 
 
+def b_dir(I, a, k, node):
+    o = a[0] if a else None
+    if isinstance(o, AObj):
+        names = set(setattr_candidates(I, o.cls)) | set(o.attrs) | {'__class__', '__init__', '__eq__', '__repr__'}
+        return AList(sorted(names))
+    return Unk('dir', kinds=['list'])
+
+
+def b_set(I, a, k, node):
+    if not a:
+        return frozenset()
+    seq = M.iterate(I, a[0], node)
+    if all(is_concrete(x) for x in seq) and not (isinstance(a[0], AList) and a[0].unknown):
+        try:
+            return frozenset(concrete(x) for x in seq)
+        except TypeError:
+            pass
+    return Unk('set', kinds=['set'], taint=tj(*seq))
+
+
 def b_noop(I, a, k, node):
     return None
 
@@ -496,7 +525,7 @@ GLOBALS = {
     'sum': b_sum, 'any': b_any, 'all': b_any, 'print': b_print,
     'json.loads': b_json_loads, 'json.dumps': b_json_dumps, 're.compile': b_re_compile,
     'io.BytesIO': b_bytesio, 'copy.deepcopy': b_deepcopy, 'logging.getLogger': b_getlogger,
-    'codecs.lookup': b_codecs_lookup, 'logging.log': b_noop, 'object.__init__': b_noop,
+    'codecs.lookup': b_codecs_lookup, 'logging.log': b_noop, 'dir': b_dir, 'set': b_set, 'frozenset': b_set, 'object.__init__': b_noop,
 }
 
 
@@ -641,9 +670,9 @@ def _no_self_overlap(sep):
 
 def m_strip(I, recv, a, k, node, kind):
     if is_concrete(recv) and all(is_concrete(x) for x in a):
-        return getattr(concrete(recv), node.func.attr)(*[concrete(x) for x in a])
-    u = Unk('%s.%s' % (getattr(recv, 'name', 's'), node.func.attr), kinds=_k(recv), taint=tj(recv),
-            src=('method', recv, node.func.attr, a))
+        return getattr(concrete(recv), _mname(I, node))(*[concrete(x) for x in a])
+    u = Unk('%s.%s' % (getattr(recv, 'name', 's'), _mname(I, node)), kinds=_k(recv), taint=tj(recv),
+            src=('method', recv, _mname(I, node), a))
     if isinstance(recv, Unk) and 'strip-truthy' in recv.facts:
         u.facts.add('truthy')
     if hasattr(recv, 'k1_record'):
@@ -653,8 +682,8 @@ def m_strip(I, recv, a, k, node, kind):
 
 def m_startswith(I, recv, a, k, node, kind):
     if is_concrete(recv) and is_concrete(a[0]):
-        return getattr(concrete(recv), node.func.attr)(concrete(a[0]))
-    if node.func.attr == 'endswith' and isinstance(recv, Unk) and is_concrete(a[0]) \
+        return getattr(concrete(recv), _mname(I, node))(concrete(a[0]))
+    if _mname(I, node) == 'endswith' and isinstance(recv, Unk) and is_concrete(a[0]) \
             and getattr(recv, 'suffix', None) is not None and recv.suffix == concrete(a[0]):
         return True
     kr, ka = _k(recv), kind_of(a[0])
@@ -662,10 +691,10 @@ def m_startswith(I, recv, a, k, node, kind):
         if not (ka <= kr | {'tuple'}):
             if not (ka & kr):
                 _raise(I, node, 'TypeError', 'startswith/endswith type mismatch')
-            I.may_raise(node, ['TypeError'], 'str/bytes mismatch in %s' % node.func.attr, (recv, a[0]))
-    I.emit(node.func.attr, node, {'recv': recv, 'arg': a[0]})
+            I.may_raise(node, ['TypeError'], 'str/bytes mismatch in %s' % _mname(I, node), (recv, a[0]))
+    I.emit(_mname(I, node), node, {'recv': recv, 'arg': a[0]})
 
-    def refine(t, recv=recv, arg=a[0], which=node.func.attr):
+    def refine(t, recv=recv, arg=a[0], which=_mname(I, node)):
         if isinstance(recv, Unk):
             recv.facts.add((which, id(arg), bool(t)))
             if t and is_concrete(arg):
@@ -755,10 +784,10 @@ def m_format(I, recv, a, k, node, kind):
 def m_strsimple(I, recv, a, k, node, kind):
     if is_concrete(recv) and all(is_concrete(x) for x in a):
         try:
-            return getattr(concrete(recv), node.func.attr)(*[concrete(x) for x in a])
+            return getattr(concrete(recv), _mname(I, node))(*[concrete(x) for x in a])
         except Exception:
             pass
-    meth = node.func.attr
+    meth = _mname(I, node)
     rk = _k(recv)
     if meth in ('isdigit', 'isspace', 'isalnum', 'isdecimal', 'isnumeric'):
         return Unk('cond', kinds=['bool'], taint=tj(recv), src=('cond', lambda t: None))
@@ -973,8 +1002,8 @@ def m_extend(I, recv, a, k, node, kind):
 
 
 def m_listmut(I, recv, a, k, node, kind):
-    _mut(I, recv, node, 'list.%s' % node.func.attr)
-    if node.func.attr == 'sort' and isinstance(recv, AList):
+    _mut(I, recv, node, 'list.%s' % _mname(I, node))
+    if _mname(I, node) == 'sort' and isinstance(recv, AList):
         recv.sorted = True
     return None
 
@@ -982,7 +1011,7 @@ def m_listmut(I, recv, a, k, node, kind):
 # regex / match
 
 def m_rmatch(I, recv, a, k, node, kind):
-    mode = node.func.attr
+    mode = _mname(I, node)
     data = a[0]
     I.emit('regex-apply', node, {'regex': recv, 'mode': mode, 'data': data})
     kd = kind_of(data)
@@ -1165,13 +1194,13 @@ def m_close(I, recv, a, k, node, kind):
 
 
 def m_streamother(I, recv, a, k, node, kind):
-    if node.func.attr in ('readline', 'read1', 'peek'):
-        ev = I.effect('stream-read', node, {'stream': recv, 'n': a[0] if a else None, 'method': node.func.attr})
-        u = Unk(node.func.attr, kinds=['bytes'], taint=taint_of(recv) | {'INPUT'}, src=('read', recv, a[0] if a else None))
+    if _mname(I, node) in ('readline', 'read1', 'peek'):
+        ev = I.effect('stream-read', node, {'stream': recv, 'n': a[0] if a else None, 'method': _mname(I, node)})
+        u = Unk(_mname(I, node), kinds=['bytes'], taint=taint_of(recv) | {'INPUT'}, src=('read', recv, a[0] if a else None))
         ev.data['result'] = u
         return u
-    I.effect('stream-' + node.func.attr, node, {'stream': recv, 'args': a})
-    return Unk(node.func.attr, taint=taint_of(recv) | {'INPUT'}, kinds=['bytes'] if node.func.attr.startswith('read') or node.func.attr == 'peek' else None)
+    I.effect('stream-' + _mname(I, node), node, {'stream': recv, 'args': a})
+    return Unk(_mname(I, node), taint=taint_of(recv) | {'INPUT'}, kinds=['bytes'] if _mname(I, node).startswith('read') or _mname(I, node) == 'peek' else None)
 
 
 class SharedSet(object):
@@ -1183,7 +1212,7 @@ class SharedSet(object):
 
 def m_set_mutate(I, recv, a, k, node, kind):
     # folded sets are module/class-level constants (or literals built from them)
-    I.effect('mutate', node, {'obj': SharedSet(recv), 'op': 'set.%s' % node.func.attr})
+    I.effect('mutate', node, {'obj': SharedSet(recv), 'op': 'set.%s' % _mname(I, node)})
     return None
 
 
